@@ -394,3 +394,13 @@ Proof.
   intros H Hs. apply ambiguous_iff_best_shared_lemma in H. destruct H as [l [r [Hc [_ [-> _]]]]].
   apply filter_In in Hs. destruct Hs as [Hs _]. apply (collect_in _ _ _ Hc s). auto.
 Qed.
+
+(* the loop carries nothing from one candidate to the next: wherever a candidate stands in the
+   registration order, its own verdict is what enters the survivor list *)
+Lemma collect_local cs1 cs2 c q l :
+  collect (cs1 ++ c :: cs2) q = Some l ->
+  forall m k, try_match c q = TMOk m k -> In (c, m, k) l.
+Proof.
+  intros H m k HT. apply (collect_in _ _ _ H (c, m, k)). cbn [s_cand s_map s_rank fst snd].
+  split; auto. apply in_or_app. right. left. auto.
+Qed.
